@@ -397,7 +397,7 @@ func emitPrincipal(class string, reqs []preq, e2e bool) {
 		}
 	}
 	obsC := obsList(t, per) // (fills the table with any intent only the implementation produced)
-	coq := hv.Tuple(t.coq(), hv.List(rs), obsC, hv.Ni(res.abnormal))
+	coq := hv.App(map[bool]string{false: "PC", true: "EC"}[e2e], t.coq(), hv.List(rs), obsC, hv.Ni(res.abnormal))
 	desc := strings.Join(ds, " ; ")
 	hv.Emit(hv.Case{Fn: fn, Coq: coq, Class: class, Desc: desc, Spec: v.ok, Sig: v.sig, What: v.what, NT: nt,
 		Replay: map[string]interface{}{"history": ds, "observed": seen, "abnormal": res.abnormal}})
@@ -453,7 +453,7 @@ func emitTarget(class string, msgs []tmsg) {
 		}
 	}
 	obsC := obsList(t, per)
-	coq := hv.Tuple(t.coq(), hv.List(ms), obsC, hv.Ni(res.abnormal))
+	coq := hv.App("MC", t.coq(), hv.List(ms), obsC, hv.Ni(res.abnormal))
 	hv.Emit(hv.Case{Fn: "c06t_ok", Coq: coq, Class: class, Desc: strings.Join(ds, " ; "), Spec: v.ok, Sig: v.sig, What: v.what, NT: nt,
 		Replay: map[string]interface{}{"messages": ds, "observed": seen, "abnormal": res.abnormal}})
 }
